@@ -7,6 +7,7 @@ import (
 	"fmt"
 	"os"
 	"sort"
+	"strings"
 
 	"golang.org/x/tools/go/ssa"
 )
@@ -84,7 +85,9 @@ func checkC02(r *Result) {
 	for _, o := range local {
 		t, ok := c02Table[o.Key()]
 		where := P.Pos(o.Pos) + " reached via " + PathTo(reach, TopFunc(o.Fn))
-		if ok {
+		if ok && t.class == "DEFECT" {
+			r.bad(ruleOf[o.Kind], o.Key(), where, t.reason)
+		} else if ok {
 			r.ok(ruleOf[o.Kind], o.Key(), where, t.class+": "+t.reason)
 		} else {
 			r.bad(ruleOf[o.Kind], o.Key(), where, "failure origin on a block path that is neither structurally guarded nor triaged")
@@ -98,12 +101,46 @@ func checkC02(r *Result) {
 		}
 		seen[k] = true
 		t, ok := c02Table[e.o.Key()]
+		if !ok {
+			if cl, why := autoClassErr(e.o); cl != "" {
+				t, ok = triage{cl, why}, true
+			}
+		}
 		where := P.Pos(e.o.Pos)
-		if ok {
+		if ok && t.class == "DEFECT" {
+			r.bad("FAIL-ERR", k, where, t.reason)
+		} else if ok {
 			r.ok("FAIL-ERR", k, where, t.class+": "+t.reason)
 		} else {
 			r.bad("FAIL-ERR", k, where, "error origin whose value can reach the hook's return and is not triaged: a failure here halts block processing")
 		}
 	}
 	c02Links(r)
+}
+
+
+var infraCollMethods = map[string]bool{"Set": true, "Remove": true, "Has": true, "Walk": true, "Iterate": true, "Clear": true, "MatchExact": true, "Next": true, "Peek": true, "IterateRaw": true}
+var infraFuncs = map[string]bool{
+	"(cosmossdk.io/collections/indexes.MultiIterator).PrimaryKey": true, "cosmossdk.io/collections/indexes.CollectValues": true,
+	"cosmossdk.io/collections/indexes.CollectKeyValues": true, "(cosmossdk.io/collections.Iterator).Values": true, "(cosmossdk.io/collections.Iterator).Keys": true,
+	"(cosmossdk.io/collections.Iterator).KeyValues": true,
+}
+var validAbiTypes = map[string]bool{"uint256": true, "bytes32": true, "bytes": true, "string": true, "address": true, "bool": true, "uint64": true, "uint8": true, "int256": true}
+
+// autoClassErr classifies error origins that need no per-site triage: store
+// write/iteration errors (infrastructure) and ABI type construction from a constant valid type string.
+func autoClassErr(o *Origin) (string, string) {
+	if o.Kind != "err-ext" {
+		return "", ""
+	}
+	if strings.HasPrefix(o.Desc, "coll:") {
+		m := o.Desc[strings.LastIndex(o.Desc, ".")+1:]
+		if infraCollMethods[m] {
+			return "infrastructure", "a collections " + m + " fails only on a store/codec fault, not on transaction input (no not-found semantics)"
+		}
+	}
+	if infraFuncs[o.Desc] {
+		return "infrastructure", "iterator/collector error: store fault only"
+	}
+	return "", ""
 }
